@@ -315,6 +315,11 @@ def check(ctx: Ctx) -> None:
     splice_shape(ctx, I)
     tagify_table(ctx, I)
     tag_tagify_shape(ctx, I, rule="C09.tagify")
+    # tagifiable objects below a component (children, nested tags, prop values) are reached by the conversion's walk, and
+    # render() reads markup and dependencies from the expanded copy
+    from ..report import SharedCtx
+    from .c20 import walker_coverage
+    walker_coverage(SharedCtx(ctx, lambda r: "C09.jsx" if r == "C20.walk" else None), I)
     raise_path(ctx)
     render_uses_copy(ctx, I)
     document_pipeline(ctx, I)
